@@ -99,6 +99,41 @@ def recv_path(f, n):
     return go(n)
 
 
+def combinator_variants(facts, f, which):
+    """`self.as_ref().and_then(|c| ..)` / `.map_or(d, |c| ..)` on an Option / Result receiver: {variant: body node}"""
+    ps = f["params"]
+    if not ps or not ps[0].get("pat") or ps[0]["pat"].get("k") != "Bind":
+        return None
+    selfv = ps[0]["pat"]["v"]
+    e = peel_block(f["body"])
+    if e.get("k") != "Call":
+        return None
+    c = callee(e) or ""
+    name = c.rsplit("::", 1)[-1]
+    if name not in ("and_then", "map_or", "map", "map_or_else") or not e.get("args"):
+        return None
+    r = peel_block(peel(e["args"][0]))
+    if not (r.get("k") == "Call" and (callee(r) or "").endswith("::as_ref") and r.get("args") and is_var(r["args"][0], selfv)):
+        return None
+    is_result = c.startswith("core::result::Result")
+    is_option = c.startswith("core::option::Option")
+    if not (is_result or is_option):
+        return None
+    clo = peel(e["args"][-1])
+    g = facts.fns.get(clo.get("id")) if clo.get("k") == "Closure" else None
+    if g is None:
+        return None
+    if which == "child":
+        other = {"k": "Adt", "adt": "core::option::Option", "variant": "None", "fields": []}
+        if name != "and_then":
+            return None
+    else:
+        if name != "map_or" or len(e["args"]) != 3:
+            return None
+        other = e["args"][1]
+    return {"Ok": g["body"], "Err": other} if is_result else {"Some": g["body"], "None": other}
+
+
 def child_classes(f, body=None, recvs=None):
     idx, derived = index_vars(f)
     out = set()
@@ -141,6 +176,9 @@ def child_classes(f, body=None, recvs=None):
         out.add(("const", len(lits)) if lits == set(range(len(lits))) else ("const-gap", tuple(sorted(lits))))
         # a `None` that does not depend on the index (a poisoned lock, a failed borrow ...): the children may be absent altogether
         for x in walk(body if body is not None else f["body"]):
+            if x.get("k") == "Try" and (x.get("rty") or "").startswith("core::option::Option") \
+                    and not any(y.get("k") == "Var" and y["v"] in derived for y in walk(x["e"])):
+                out.add(("const", 0, "state-dependent"))
             if x.get("k") == "Match" and var_of(x["e"]) not in derived and len(x["arms"]) >= 2:
                 if any(y.get("k") == "Var" and y["v"] in derived for y in walk(x["e"])):
                     continue
@@ -224,8 +262,8 @@ def s1(facts, tier):
         if ch is None:
             continue
         name = key[1:].split(" as ")[0] if key.startswith("<") else key
-        cv = split_by_variant(ch)
-        lv = split_by_variant(ln) if ln is not None else None
+        cv = split_by_variant(ch) or combinator_variants(facts, ch, "child")
+        lv = (split_by_variant(ln) or combinator_variants(facts, ln, "len")) if ln is not None else None
         if cv is not None and lv is not None and set(cv) == set(lv):
             bad = []
             for vn in sorted(cv):
